@@ -4,7 +4,7 @@
    all channel lists.  Float rounding of the implementation is outside the model (DESIGN.md §4). *)
 From Coq Require Import QArith Qround ZArith List.
 Import ListNotations.
-Require Import Plinio.Base.Qx Plinio.Base.Round Plinio.Model.Quant Plinio.Proofs.Quant.
+Require Import Plinio.Base.Qx Plinio.Base.Round Plinio.Model.Quant Plinio.Proofs.Quant Plinio.Gen.QuantGen Plinio.Proofs.QuantGen.
 Open Scope Q_scope.
 
 (* --- weights (symmetric min-max, per channel) *)
@@ -65,6 +65,52 @@ Proof. exact bq_mono. Qed.
 Theorem C13_bq_err : forall sb b, (1 # 100000000) < qabs sb -> - (qabs sb / 2) <= b - bq_fq sb b <= qabs sb / 2.
 Proof. exact bq_err. Qed.
 
+
+(* ---- the model GENERATED from the source of the three quantizers of the tree under test (Gen/QuantGen.v, rewritten by
+        translator/quant2coq.py on every run): one tensor element at a time, exact rational arithmetic ---- *)
+(* it computes the hand-written model: integer output, fake-quantized output and reported scale ... *)
+Theorem C13_generated_aq_int : forall p clip x, aq_gen p clip x false == inject_Z (aq_int p clip x).
+Proof. exact aq_gen_int. Qed.
+Theorem C13_generated_aq_fq : forall p clip x, aq_gen p clip x true == aq_fq p clip x.
+Proof. exact aq_gen_fq. Qed.
+Theorem C13_generated_aq_scale : forall p clip, aq_scale_gen p clip == aq_scale p clip.
+Proof. exact aq_scale_gen_eq. Qed.
+Theorem C13_generated_wq_int : forall p' m x, wq_gen (S p') (- m) m x false == inject_Z (wq_int (S p') m x).
+Proof. exact wq_gen_int. Qed.
+Theorem C13_generated_wq_fq : forall p' m x, wq_gen (S p') (- m) m x true == wq_fq (S p') m x.
+Proof. exact wq_gen_fq. Qed.
+Theorem C13_generated_wq_zero_bits : forall m x deq, wq_gen 0 (- m) m x deq == 0.
+Proof. exact wq_gen_zero_bits. Qed.
+Theorem C13_generated_wq_scale : forall p m, wq_scale_gen p (- m) m == wq_scale p m.
+Proof. exact wq_scale_gen_eq. Qed.
+Theorem C13_generated_bq_int : forall sb b, bq_gen sb b false == inject_Z (bq_int sb b).
+Proof. exact bq_gen_int. Qed.
+Theorem C13_generated_bq_fq : forall sb b, bq_gen sb b true == bq_fq sb b.
+Proof. exact bq_gen_fq. Qed.
+
+(* ... no division on an evaluated path has a zero divisor (positive clipping value, at least one bit; every channel
+   range incl. the constant-zero channel; every scale product incl. zero) ... *)
+Theorem C13_generated_aq_defined : forall p' clip x deq, 0 < clip -> aq_ok (S p') clip x deq = true.
+Proof. exact aq_gen_defined. Qed.
+Theorem C13_generated_aq_scale_defined : forall p' clip, aq_scale_ok (S p') clip = true.
+Proof. exact aq_scale_gen_defined. Qed.
+Theorem C13_generated_wq_defined : forall p' m x deq, 0 <= m -> wq_ok (S p') (- m) m x deq = true.
+Proof. exact wq_gen_defined. Qed.
+Theorem C13_generated_wq_scale_defined : forall p m, wq_scale_ok p (- m) m = true.
+Proof. exact wq_scale_gen_defined. Qed.
+Theorem C13_generated_bq_defined : forall sb b deq, bq_ok sb b deq = true.
+Proof. exact bq_gen_defined. Qed.
+
+(* ... and "fake-quantized output = integer output x reported scale" holds of the code as it is now *)
+Theorem C13_generated_aq_fq_is_int_times_scale : forall p' clip x, 0 < clip ->
+  aq_gen (S p') clip x true == aq_gen (S p') clip x false * aq_scale_gen (S p') clip.
+Proof. exact gen_aq_fq_is_int_times_scale. Qed.
+Theorem C13_generated_wq_fq_is_int_times_scale : forall p m x,
+  wq_gen p (- m) m x true == wq_gen p (- m) m x false * wq_scale_gen p (- m) m.
+Proof. exact gen_wq_fq_is_int_times_scale. Qed.
+Theorem C13_generated_bq_fq_is_multiple : forall sb b, bq_gen sb b true == sb * bq_gen sb b false.
+Proof. exact gen_bq_fq_is_multiple. Qed.
+
 (* non-vacuity: a 3-channel example with a constant channel, an all-zero channel, a half-way rounding *)
 Example C13_example :
   wq_channel 3 [1; 1; 1] = [3; 3; 3]%Z /\ wq_channel 3 [0; 0] = [0; 0]%Z /\
@@ -88,3 +134,20 @@ Print Assumptions C13_bq_zero_scale.
 Print Assumptions C13_bq_multiple.
 Print Assumptions C13_bq_mono.
 Print Assumptions C13_bq_err.
+Print Assumptions C13_generated_aq_int.
+Print Assumptions C13_generated_aq_fq.
+Print Assumptions C13_generated_aq_scale.
+Print Assumptions C13_generated_wq_int.
+Print Assumptions C13_generated_wq_fq.
+Print Assumptions C13_generated_wq_zero_bits.
+Print Assumptions C13_generated_wq_scale.
+Print Assumptions C13_generated_bq_int.
+Print Assumptions C13_generated_bq_fq.
+Print Assumptions C13_generated_aq_defined.
+Print Assumptions C13_generated_aq_scale_defined.
+Print Assumptions C13_generated_wq_defined.
+Print Assumptions C13_generated_wq_scale_defined.
+Print Assumptions C13_generated_bq_defined.
+Print Assumptions C13_generated_aq_fq_is_int_times_scale.
+Print Assumptions C13_generated_wq_fq_is_int_times_scale.
+Print Assumptions C13_generated_bq_fq_is_multiple.
